@@ -57,6 +57,7 @@ enum Sub
     G_CLEAR,
     G_FILL_HEADER,
     G_ITER_CURSOR,
+    G_HEADER_FIELDS, // read and re-write blockLength / numInGroup through the dimension composite
     G_ITER_INDEXED, // flat groups: *(begin()+i), begin()[i], (end()-1-i) for every i
     // data
     D_ADDR,
@@ -76,6 +77,7 @@ enum Sub
     // message
     M_HEADER,
     M_FILL_HEADER,
+    M_HEADER_FIELDS, // read and re-write the four standard members through the header composite
     M_SBC,
     M_SIZE_BYTES_CURSOR, // full cursor traversal, then size_bytes(m, c)
     M_CURSOR_WALK,       // scripted walk (C04)
@@ -100,7 +102,8 @@ struct Decision
     int wrapper = W_PLAIN;
     long long displace = 0; // applied to the cursor before the call (misuse injection)
     int split = -1;         // for groups: -1 = cursor_range, j >= 0 = cursor_subrange(0,j) + cursor_subrange(j)
-    bool write = false;     // use the setter form (fields only; value re-written unchanged)
+    bool write = false;     // use the setter form (scalar/enum/set fields only)
+    u64 value = 0;          // what the setter writes (the model supplies the value the frame already holds)
 };
 
 struct CursorStep
